@@ -124,15 +124,20 @@ class Signal(np.lib.mixins.NDArrayOperatorsMixin):
             kwargs.pop("order", None)
             kwargs.pop("subok", None)
             if kwargs.get("dtype") is not None:
-                # ``dtype`` selects the precision the computation is done in;
-                # Dask would only relabel the result.
-                loop = np.dtype(kwargs["dtype"])
-                homogeneous = f"{loop.char * ufunc.nin}->{loop.char * ufunc.nout}"
-                if homogeneous in ufunc.types:
-                    in_arr = tuple(
-                        a.astype(loop) if isinstance(a, (np.ndarray, dask.array.Array)) else a
-                        for a in in_arr
-                    )
+                # ``dtype`` selects the loop (the precision the computation is
+                # done in); Dask would only relabel the result. Resolve the loop
+                # as NumPy does and cast the operands to its input types.
+                loop = np.dtype(kwargs.pop("dtype"))
+                in_arr = tuple(
+                    a if isinstance(a, (np.ndarray, dask.array.Array)) else np.asarray(a)
+                    for a in in_arr
+                )
+                resolved = ufunc.resolve_dtypes(
+                    tuple(a.dtype for a in in_arr) + (None,) * ufunc.nout,
+                    signature=(None,) * ufunc.nin + (loop,) * ufunc.nout,
+                    casting=casting,
+                )
+                in_arr = tuple(a.astype(dt) for a, dt in zip(in_arr, resolved))
 
         if any(isinstance(o, dask.array.Array) for o in out_arr):
             # Dask would rebind an output array to the dtype of the result;
